@@ -84,7 +84,7 @@ Proof.
     + lia.
     + cbn [len]. lia.
     + cbn [len] in *. rewrite E. cbn [bind]. split; [apply safe_Ok | cbn [inside]; rewrite ndp_value_norange; constructor].
-    + cbn [len] in *. rewrite E. cbn [bind]. split; [apply safe_Ok | inside_tac].
+    + cbn [len] in *. rewrite E. cbn [bind]. split; [apply safe_Ok | cbn [inside]; rewrite ndp_value_norange; constructor].
 Qed.
 
 (* ---------------- RA ---------------- *)
@@ -93,8 +93,6 @@ Proof.
   intros W B H. unfold RA_IsValid in H. valid_len H. unfold RA_getters. pose proof W as W'. std_safe2 W.
   intros _. apply ndp_options_at_ok. exact W'.
 Qed.
-Lemma RA_spec v : wf v -> bytes_ok (arr v) -> RA_IsValid v = Ok true -> getters_spec [] RA_getters RA_specs v.
-Proof. intros W B H. unfold RA_IsValid in H. valid_len H. unfold RA_getters, RA_specs. std_spec2 W B L. Qed.
 
 (* ---------------- HopByHopExtensionHeader ---------------- *)
 Lemma HBH_valid_facts v : HBH_IsValid v = Ok true ->
